@@ -111,6 +111,7 @@ import JdProofs.LcsProofs
 import JdProofs.DiffMinimal
 import JdProofs.DiffPatchList
 import JdProofs.ListRecursion
+import JdProps.C06Align
 
 set_option autoImplicit false
 
